@@ -111,8 +111,9 @@ def family_jobs(names: Iterable[str], tier: str, variants: int = 0) -> Iterator[
         yield from jobs
         keep = slice_keep(tier)
         base = sorted((j for j in jobs if keep(j)), key=lambda j: j["id"])
-        if tier == "quick" and len(base) > variants:
-            base = [base[(k * len(base)) // variants] for k in range(variants)]  # evenly spaced
+        cap = variants if tier == "quick" else 25 * variants
+        if len(base) > cap:
+            base = [base[(k * len(base)) // cap] for k in range(cap)]  # evenly spaced
         yield from mutate.variants(base)
         yield from mutate.variants2(base)
 
